@@ -504,6 +504,8 @@ def _prepare_body(caller_fi, call: ast.Call, callee_fi, st=None):
     if nested_sibling and caller_fi is not callee_fi.parent and (free & (caller_names - bound_names(callee_fi.parent.node))):
         return None
     st_targets = {n.id for t in st.targets for n in ast.walk(t) if isinstance(n, ast.Name) and isinstance(n.ctx, ast.Store)} if isinstance(st, ast.Assign) else set()
+    if isinstance(st, ast.With):
+        st_targets = {n.id for it in st.items if it.optional_vars is not None for n in ast.walk(it.optional_vars) if isinstance(n, ast.Name)}
     arg_names = {n.id for a2 in binding.values() for n in ast.walk(a2) if isinstance(n, ast.Name)}
     for loc in sorted(callee_locals):
         if loc in caller_names and loc not in binding:
@@ -691,6 +693,158 @@ def _inline_expression_call(caller_fi, st, call: ast.Call, callee_fi) -> bool:
     return R.hit
 
 
+# ------------------------------------------------------------------------------------------------ pass 1b
+def _is_contextmanager(fn: ast.FunctionDef) -> bool:
+    ds = fn.decorator_list
+    return len(ds) == 1 and ((isinstance(ds[0], ast.Attribute) and ds[0].attr == "contextmanager") or (isinstance(ds[0], ast.Name) and ds[0].id == "contextmanager"))
+
+
+def inline_new_context_managers(repo) -> List[str]:
+    """`with f(args) as v: BODY` where f is a generator-based context manager absent from the pinned tree, of the plain shape
+    `PRE; yield X; POST` (no try / finally: an exception in BODY skips POST, as in the inlined form)  ->  `PRE; v = X; BODY; POST`."""
+    known = set(vocab()["functions"])
+    if not known:
+        return []
+    cms = {q: fi for q, fi in repo.functions.items() if q not in known and isinstance(fi.node, ast.FunctionDef) and _is_contextmanager(fi.node)}
+    done: List[str] = []
+    if not cms:
+        return done
+    for q, caller in list(repo.functions.items()):
+        if q in cms or not isinstance(caller.node, ast.FunctionDef):
+            continue
+        for _ in range(6):
+            hit = False
+            for st in own_statements(caller.node):
+                if not isinstance(st, ast.With) or len(st.items) != 1 or not isinstance(st.items[0].context_expr, ast.Call):
+                    continue
+                call = st.items[0].context_expr
+                tq = repo.resolve_call(caller, call)
+                if tq not in cms:
+                    continue
+                callee_fi = cms[tq]
+                body = _callee_parts(callee_fi)
+                yi = [i for i, b in enumerate(body) if isinstance(b, ast.Expr) and isinstance(b.value, ast.Yield)]
+                all_yields = [n for b in body for n in ast.walk(b) if isinstance(n, (ast.Yield, ast.YieldFrom))]
+                if len(yi) != 1 or len(all_yields) != 1 or any(isinstance(n, (ast.Try, ast.Return)) for b in body for n in ast.walk(b)):
+                    continue
+                # reuse the statement-call machinery on a synthetic callee without the yield
+                k = yi[0]
+                yielded = body[k].value.value
+                fake = copy.deepcopy(callee_fi.node)
+                fake.decorator_list = []
+                fbody = [copy.deepcopy(b) for b in body]
+                marker = ast.Expr(value=ast.Name(id="__BODY__", ctx=ast.Load()))
+                vname = st.items[0].optional_vars
+                pre_yield = fbody[:k]
+                bind_v = [ast.Assign(targets=[copy.deepcopy(vname)], value=copy.deepcopy(yielded))] if (vname is not None and yielded is not None) else []
+                fake.body = pre_yield + [ast.Assign(targets=[ast.Name(id="__cm_value__", ctx=ast.Store())], value=copy.deepcopy(yielded) if yielded is not None else ast.Constant(value=None))] \
+                    + [marker] + fbody[k + 1:]
+                from .model import FunctionInfo
+                fake_fi = FunctionInfo(callee_fi.qualname, callee_fi.module, fake, cls=callee_fi.cls, parent=callee_fi.parent)
+                prep = _prepare_body(caller, call, fake_fi, st)
+                if prep is None:
+                    continue
+                pre, nb = prep
+                out: List[ast.stmt] = list(pre)
+                for b in nb:
+                    if isinstance(b, ast.Expr) and isinstance(b.value, ast.Name) and b.value.id == "__BODY__":
+                        out.extend(st.body)
+                    elif isinstance(b, ast.Assign) and isinstance(b.targets[0], ast.Name) and b.targets[0].id == "__cm_value__":
+                        if vname is not None and not (isinstance(vname, ast.Name) and isinstance(b.value, ast.Name) and vname.id == b.value.id):
+                            out.append(ast.copy_location(ast.Assign(targets=[copy.deepcopy(vname)], value=b.value), st))
+                    else:
+                        out.append(b)
+                for o in out:
+                    ast.fix_missing_locations(o)
+                _ = bind_v
+                if _replace_stmt(caller.node, st, out):
+                    done.append(tq)
+                    hit = True
+                    break
+            if not hit:
+                break
+    return sorted(set(done))
+
+
+# ------------------------------------------------------------------------------------------------ pass 1c
+def inline_new_module_constants(repo) -> List[str]:
+    """A module-level name the pinned module does not have, assigned once with a pure expression and never written through,
+    is substituted into the functions of that module that read it (read-only uses only)."""
+    known_all = vocab().get("globals")
+    done: List[str] = []
+    if not known_all:
+        return done
+    for mname, m in repo.modules.items():
+        known = set(known_all.get(mname, ()))
+        if not known:
+            continue
+        cands: Dict[str, ast.AST] = {}
+        counts: Dict[str, int] = {}
+        for st in m.tree.body:
+            if isinstance(st, ast.Assign):
+                for t in st.targets:
+                    for n in ast.walk(t):
+                        if isinstance(n, ast.Name) and isinstance(n.ctx, ast.Store):
+                            counts[n.id] = counts.get(n.id, 0) + 1
+                if len(st.targets) == 1 and isinstance(st.targets[0], ast.Name) and st.targets[0].id not in known and not _has_impure_call(st.value) \
+                        and not isinstance(st.value, (ast.Lambda, ast.Dict, ast.DictComp)):
+                    cands[st.targets[0].id] = st.value
+            elif isinstance(st, (ast.AugAssign, ast.AnnAssign)) and isinstance(st.target, ast.Name):
+                counts[st.target.id] = counts.get(st.target.id, 0) + 2
+        cands = {k: v for k, v in cands.items() if counts.get(k, 0) == 1}
+        if not cands:
+            continue
+        # never written through / rebound anywhere in the module
+        for node in ast.walk(m.tree):
+            if isinstance(node, ast.Global):
+                for nm in node.names:
+                    cands.pop(nm, None)
+            if isinstance(node, (ast.Subscript, ast.Attribute)) and isinstance(node.ctx, (ast.Store, ast.Del)):
+                b = node
+                while isinstance(b, (ast.Subscript, ast.Attribute)):
+                    b = b.value
+                if isinstance(b, ast.Name):
+                    cands.pop(b.id, None)
+            if isinstance(node, ast.AugAssign):
+                b = node.target
+                while isinstance(b, (ast.Subscript, ast.Attribute)):
+                    b = b.value
+                if isinstance(b, ast.Name):
+                    cands.pop(b.id, None)
+        for q, fi in repo.functions.items():
+            if fi.module is not m or not isinstance(fi.node, ast.FunctionDef) or fi.parent is not None:
+                continue
+            local = bound_names(fi.node)
+            for nested in ast.walk(fi.node):
+                if isinstance(nested, (ast.FunctionDef, ast.Lambda)) and nested is not fi.node:
+                    local |= bound_names(nested) if isinstance(nested, ast.FunctionDef) else {a.arg for a in nested.args.args}
+            use = {k: v for k, v in cands.items() if k not in local and any(isinstance(n, ast.Name) and n.id == k for n in ast.walk(fi.node))}
+            if not use:
+                continue
+            parents = {}
+            for par in ast.walk(fi.node):
+                for ch in ast.iter_child_nodes(par):
+                    parents[id(ch)] = par
+            for k in list(use):
+                reads = [n for n in ast.walk(fi.node) if isinstance(n, ast.Name) and n.id == k]
+                if not all(isinstance(n.ctx, ast.Load) and (_immutable_value(use[k]) or _consumed_read_only(n, parents) or _method_read(n, parents)) for n in reads):
+                    use.pop(k)
+            if use:
+                sub = _Subst(use)
+                fi.node.body = [sub.visit(b) for b in fi.node.body]
+                ast.fix_missing_locations(fi.node)
+                done += [f"{mname}.{k}" for k in use]
+    return sorted(set(done))
+
+
+def _method_read(n: ast.AST, parents) -> bool:
+    """`CONST.method(...)` with a reading method of a compiled pattern / tuple / string."""
+    par = parents.get(id(n))
+    gp = parents.get(id(par)) if par is not None else None
+    return isinstance(par, ast.Attribute) and isinstance(gp, ast.Call) and gp.func is par and par.attr in (
+        "fullmatch", "match", "search", "findall", "finditer", "split", "sub", "format", "join", "index", "count", "get", "keys", "values", "items")
+
+
 # ------------------------------------------------------------------------------------------------ pass 2
 def canonical_dict_loops(fn_node) -> int:
     """for v in D.values() / for k, v in D.items() (also enumerate(..)) -> for k in D.keys(), v := D[k]."""
@@ -848,7 +1002,15 @@ def inline_new_locals(qualname: str, fn_node, max_rounds: int = 60, on_change=No
             if not uses or not ok:
                 continue
             use_stmts = {id(n2.stmt) for n2, _ in uses}
-            operand_names = {n.id for n in ast.walk(s.value) if isinstance(n, ast.Name)}
+            local_names = bound_names(fn_node)
+            operand_names = {n.id for n in ast.walk(s.value) if isinstance(n, ast.Name) and n.id in local_names and n.id != "self"}  # not modules / globals
+            # attributes of self read by the value: compared location by location (a store to another attribute is irrelevant)
+            from .defuse import loc_name as _loc
+            for n in ast.walk(s.value):
+                if isinstance(n, (ast.Attribute, ast.Subscript)):
+                    ln = _loc(n)
+                    if ln and ln.startswith("self."):
+                        operand_names.add(ln)
             # locations (attribute / subscript chains) read by the value must not be stored to anywhere in the function
             reads = {ast.unparse(n) for n in ast.walk(s.value) if isinstance(n, (ast.Attribute, ast.Subscript))}
             stores = set()
@@ -980,6 +1142,13 @@ class _Idioms(ast.NodeTransformer):
     def visit_Call(self, node):
         node = self.generic_visit(node)
         f = node.func
+        if isinstance(f, ast.Attribute) and f.attr in ("fullmatch", "match", "search", "findall", "finditer", "split") and isinstance(f.value, ast.Call) \
+                and isinstance(f.value.func, ast.Attribute) and f.value.func.attr == "compile" and isinstance(f.value.func.value, ast.Name) \
+                and f.value.func.value.id == "re" and len(f.value.args) == 1 and not f.value.keywords:
+            # re.compile(P).fullmatch(s)  ==  re.fullmatch(P, s)
+            self.n += 1
+            return ast.copy_location(ast.Call(func=ast.Attribute(value=f.value.func.value, attr=f.attr, ctx=ast.Load()),
+                                              args=[f.value.args[0]] + node.args, keywords=node.keywords), node)
         if isinstance(f, ast.Attribute) and f.attr == "allclose" and len(node.args) == 2 and isinstance(f.value, ast.Name):
             # np.allclose(a, b, ..)  ==  np.all(np.isclose(a, b, ..))   (numpy defines it so)
             self.n += 1
